@@ -1593,6 +1593,64 @@ SPECS["C02"]["theorems"] += [
 SPECS["C02"]["level_text"] += (' Props/C02P (track apileft, audit gap 15): for Encoder::new_from_iovec on a PRE-FILLED iovec (any IovInv iovec with nothing pending; see C01 / Props/C01P), '
     'what the encoder ADDS behind the prefill - (drained ++ flatten) minus the bytes the iovec held - has no stuff sequence, is independent of segmentation / methods / drains AND of what '
     'the iovec held or how it was structured, and obeys the production length bound.')
+# ---- track traits: standard-trait methods over several object instances; behaviour during unwinding ----
+SPECS["C15"]["lean_modules"] += ["Woodpile.Props.C15T"]
+SPECS["C15"]["theorems"] += [
+    "Woodpile.Props.C15T.clone_from_is_assign",
+    "Woodpile.Props.C15T.clone_from_forgets_destination",
+    "Woodpile.Props.C15T.clone_is_copy",
+    "Woodpile.Props.C15T.default_is_new",
+    "Woodpile.Props.C15T.clone_from_run_refines_list",
+    "Woodpile.Props.C15T.multi_step_refines",
+    "Woodpile.Props.C15T.multi_run_refines",
+]
+SPECS["C15"]["level_text"] += (
+    " Track traits (Props/C15T, Model/DequeTraits): the standard-trait methods. clone_from_is_assign: Clone::clone_from leaves the "
+    "destination EQUAL to the source whatever state it was in (consumed prefix, spilled store, even a state violating the invariant); "
+    "clone copies the representation, Default is new(). multi_run_refines: histories over a current deque and any number of further "
+    "objects (handle ops store = clone, load, swap, clone_from onto either side, take = mem::take, new, default) interleaved with the "
+    "single-object ops never panic and every object behaves like its own reference List deque. The sdeque family drives them on the "
+    "real Vec- and SmallVec-backed deques (ops dnew ddefault dstore dload dswap dclone_from dclone_into dtake ddebug): 12 source states "
+    "x 12 destination states (fresh, cleared, popped without slide, exactly half consumed, just slid, spilled, emptied, ...) x 4 methods "
+    "enumerated, handle ops in a third of the random cases; oracle: after every handle op EVERY object shows its own reference VecDeque "
+    "and keeps the space bound; Deref / DerefMut / iter / get / len / first / last agree, Debug does not panic. Every op is also called "
+    "from a destructor while the thread unwinds from a caught panic (`unwinding <op>`, harness/src/unwind.rs; all 3-symbol sequences "
+    "enumerated, a quarter of the random cases), with the same model, observations and oracle.")
+SPECS["C16"]["lean_modules"] += ["Woodpile.Props.C16T"]
+SPECS["C16"]["theorems"] += [
+    "Woodpile.Props.C16T.clone_from_is_assign",
+    "Woodpile.Props.C16T.clone_from_forgets_destination",
+    "Woodpile.Props.C16T.clone_is_copy",
+    "Woodpile.Props.C16T.clone_from_run_refines",
+    "Woodpile.Props.C16T.multi_step_refines",
+    "Woodpile.Props.C16T.multi_run_refines",
+]
+SPECS["C16"]["level_text"] += (
+    " Track traits (Props/C16T, Model/DequeTraits): clone_from_is_assign (the destination's tombstones and consumed-but-unslid prefix "
+    "do not survive Clone::clone_from), clone copies the representation; multi_run_refines: valid histories over several objects "
+    "(clone, clone_from onto either side, mem::take, mem::swap, Default) interleaved with the single-object ops panic iff the reference "
+    "does and every object's present items are those of its own reference ordered map. The sorted family drives them for both "
+    "conventions on Vec- and SmallVec-backed deques (12 source x 12 destination states x 4 methods enumerated; handle ops in a third of "
+    "the random cases; oracle: every object against its own BTreeMap after every handle op), and calls every non-panicking op from a "
+    "destructor while the thread unwinds (`unwinding <op>`).")
+_UNWIND_TEXT = (" Track traits (harness/src/unwind.rs, Driver/Unwind.lean): nothing in the property depends on std::thread::panicking(), so the "
+                "families also make their calls from a destructor WHILE THE THREAD UNWINDS from a deliberate caught panic (`unwinding <op>`: same "
+                "model, observations and oracle as the plain op; refused on both sides for an op that is specified to panic on the current state) "
+                "and build whole histories inside a scope that panics, so that the unwinder drops every object (`scoped_panic …`: observations as "
+                "usual, then the process-wide live chunk / byte counters must be back at their values before the op).")
+for _p in ("C03", "C04", "C05", "C06", "C08", "C10", "C14", "C17", "C19", "C20"):
+    SPECS[_p]["level_text"] += _UNWIND_TEXT
+SPECS["C13"]["level_text"] += (
+    " Track traits: PLAIN SEQUENTIAL calls on a real object without the stepping backend (`seq snapshot | update | try_update`, model = solo runs "
+    "of thread 0 on the SC machine; oracle: a snapshot returns the pair of the most recent update that returned normally and was not older than its "
+    "predecessor), each also made from a destructor while the thread unwinds from an unrelated caught panic (`unwinding seq …`, every placement "
+    "over an 8-call history enumerated; only calls that cannot panic are wrapped): a completed update is never lost whether or not the thread was "
+    "panicking when it was made.")
+SPECS["C20"]["level_text"] += (
+    " Clone::clone_from (track traits): `clone_from v<d> v<s>`, `s_clone_from`, `a_clone_from` call dst.clone_from(&src) on two live objects in "
+    "every destination state (empty, consumed, pending placeholder, spilled chunk, cleared) - model = the WOp history clone(src), drop(dst); oracle: "
+    "the destination then holds exactly the source's unconsumed bytes; an overwritten anchored slice names the source's bytes and keeps its chunk "
+    "alive on its own (C05); `dbg` formats every live object with Debug.")
 # ---------------------------------------------------------------------------------------------
 # track gen3: structured-sweep generators (HCOBS piece boundaries, every chunk length / header value, single-defect sweeps of
 # the "all neighbours ordered" scans of rough_tlv) and iterator-protocol scripts on every public iterator
